@@ -419,6 +419,20 @@ class Run:
         tail = "" if found_input else " no-failing-input-found"
         print(f"VIOLATION property={self.prop} replay={path}{tail}", flush=True)
 
+    def prune(self):
+        """Disk is limited: drop compiled artefacts and the large generated case files of this run (the replays,
+        the evidence and the small generated tables stay)."""
+        if os.environ.get("VERIF_KEEP_BUILD"):
+            return
+        for dp, _, fs in os.walk(self.build):
+            for f in fs:
+                p = os.path.join(dp, f)
+                try:
+                    if f.endswith((".vo", ".vok", ".vos", ".glob", ".aux")) or os.path.getsize(p) > 2_000_000:
+                        os.remove(p)
+                except OSError:
+                    pass
+
     def write_evidence(self):
         obl = len(self.obligations)
         dis = sum(1 for o in self.obligations if o["ok"])
@@ -516,6 +530,7 @@ def main(argv=None):
         run.violation({"kind": "harness-error", "trace": tb,
                        "broken": run.broken()}, found_input=False)
     run.write_evidence()
+    run.prune()
     corr = ", ".join("%s:%d/%d" % (k, v["cases"], v["mismatches"]) for k, v in run.corr.items())
     run.log("done: obligations %d/%d, corr {%s}, violations %d" % (
         sum(o["ok"] for o in run.obligations), len(run.obligations), corr, len(run.violations)))
